@@ -73,9 +73,10 @@ pub fn spawn_program(bus: &mut Bus, prng: &mut Rng, mix: &str, tokens: &Rc<Cell<
                 let cap = *prng.pick(&[1u32, 1, 2, 3, 4, 5, 6, 16, u32::MAX]);
                 let items = 1 + prng.below(20) as u32;
                 let ctx = mk_ctx(bus, a, format!("c{a}.chanA{p}"), prng, tokens);
-                bus.spawn_app(ctx.name.clone(), roles::chan_creator(ctx, mail.clone(), creator_sends, cap, items));
+                let gone = Slot::new();
+                bus.spawn_app(ctx.name.clone(), roles::chan_creator(ctx, mail.clone(), creator_sends, cap, items, gone.clone()));
                 let ctx = mk_ctx(bus, b, format!("c{b}.chanB{p}"), prng, tokens);
-                bus.spawn_app(ctx.name.clone(), roles::chan_peer(ctx, mail.clone(), cap, items));
+                bus.spawn_app(ctx.name.clone(), roles::chan_peer(ctx, mail.clone(), cap, items, gone));
                 roles_n += 2;
             }
         }
